@@ -10,4 +10,4 @@ Definition col_return_addr (o : Collateral.output) : bytes := Collateral.o_addr 
 Definition col_return_amount (o : Collateral.output) : value := Collateral.o_amount o.
 Extraction "model_c05.ml" keepN keepZ keepNat run_ops run_ops2 col_new judge mkTape mkImplTx mkConfig new_state cert_of_tag cddl_tag cert_coin
   ma_of_entries ma_entries mint_entries value_new mkValue mkOutput get_fee_if_set body_of known_mint_min
-  col_return_addr col_return_amount cs_inputs cs_return cs_total judge_bytes read_tx impl_of_raw.
+  col_return_addr col_return_amount cs_inputs cs_return cs_total judge_bytes read_tx impl_of_raw ma_set_asset ma_insert.
